@@ -46,6 +46,31 @@ def start():
     _state['on'] = True
 
 
+def source_sha(path):
+    import hashlib
+    try:
+        return hashlib.sha1(open(path, 'rb').read()).hexdigest()
+    except OSError:
+        return None
+
+
+def runner_sources():
+    """sha1 of the two source files as imported by this runner process (the tree may change while a long check is running)"""
+    import importlib
+    out = {}
+    for short in FILES:
+        try:
+            m = importlib.import_module('tenpy.linalg.' + short)
+            if 'sha' not in _state:
+                _state['sha'] = {}
+            if short not in _state['sha']:
+                _state['sha'][short] = source_sha(m.__file__)
+            out[short] = _state['sha'][short]
+        except Exception:
+            out[short] = None
+    return out
+
+
 def flush():
     new = _state['hits'] - _state['sent']
     _state['sent'] |= new
@@ -383,8 +408,14 @@ def exclusion(full, text):
     return e.get(text) or e.get('*')
 
 
-def evaluate(ctx, repo, lines, params, all_hist):
+def evaluate(ctx, repo, lines, params, all_hist, runner_src=None):
     import c02_depth
+    # the line numbers of the runner processes refer to the source THEY imported: when the tree changed while the check was running the tables
+    # cannot be matched against the current source (no hole is reported then; the situation is recorded in the notes)
+    stale = sorted(short for short, shas in (runner_src or {}).items() if {x for x in shas if x} - {source_sha(os.path.join(repo, FILES[short]))})
+    if stale:
+        ctx.notes.append('coverage tables: %s changed while the check was running (runner processes imported different versions); the line table of this run is '
+                         'not evaluated for holes - run the check again' % ', '.join(FILES[s_] for s_ in stale))
     # ---- 1. executable lines of every function of np_conserved.py / charges.py
     ftab = function_table(repo)
     rows, holes = {}, []
@@ -421,7 +452,8 @@ def evaluate(ctx, repo, lines, params, all_hist):
                 holes.append('%s: %s' % (full, '; '.join(unc[:6]) + (' ...' if len(unc) > 6 else '')))
     ctx.cov['line_coverage'] = {'files': sorted(FILES.values()), 'measured': 'sys.monitoring LINE events in every runner process of the pure-Python configuration (all C02 streams)',
                                 'summary': tot, 'functions_with_unreached_lines': rows}
-    for h in holes[:12]:
+    ctx.cov['line_coverage']['source_changed_during_run'] = bool(stale)
+    for h in ([] if stale else holes[:12]):
         ctx.fail('correspondence', 'coverage hole (line recording): executable lines of %s are reached by no C02 stream and are not classified' % h, None)
     # ---- 2. documented options
     opt = options_table(repo, params)
